@@ -615,6 +615,14 @@ class Exec:
                 a = args[0]
                 return z3.If(a >= 0, a, -a) if isinstance(a, z3.ExprRef) else abs(a)
             if name in ('int',): return args[0]
+            if name == 'max' and len(args) == 1:
+                v = self.deref(ps, args[0])
+                if isinstance(v, SSeq):
+                    self.raise_if(ps, v.len == 0, 'ValueError', exits)
+                    m = fresh('max', v.arr.sort().range()); k = fresh('argmax', INT)
+                    ps.pc.append(z3.And(k >= 0, k < v.len, v[k] == m, S.forall(0, v.len, lambda j: v[j] <= m, name='mx')))
+                    return m
+                raise Undecided('max of unsupported value at line %d' % e.lineno)
             raise Undecided('call to %s at line %d' % (name, e.lineno))
         if isinstance(f, ast.Attribute):
             # np.<fn>
@@ -635,6 +643,9 @@ class Exec:
             kw = {k.arg: ast.unparse(k.value) for k in e.keywords}
             if isinstance(v, SSeq) and (kw.get('dtype') == 'int' or v.esort == INT):
                 return self.alloc(ps, SSeq(v.len, z3.K(INT, z3.IntVal(0))))
+        if name == 'array' and len(args) == 1 and not e.keywords:
+            v = self.deref(ps, args[0])
+            if isinstance(v, SSeq): return self.alloc(ps, SSeq(v.len, v.arr))      # a new 1-D array with the same elements
         if name == 'zeros' and len(args) == 1 and not isinstance(args[0], (Tup, Ref)):
             return self.alloc(ps, SSeq(zint(args[0]), z3.K(INT, z3.IntVal(0))))
         raise Undecided('np.%s at line %d' % (name, e.lineno))
@@ -711,6 +722,10 @@ class Exec:
         else:
             raise Undecided('comprehension iterable at line %d' % e.lineno)
         sub.pc.append(z3.And(k >= 0, k < n))
+        if isinstance(e.elt, ast.List) and not e.elt.elts and not nested:
+            # n distinct empty lists (each evaluation of the element expression creates a new object: no aliasing between rows)
+            nn = zint(n)
+            return self.alloc(ps, SSeq2(z3.If(nn >= 0, nn, z3.IntVal(0)), z3.K(INT, z3.IntVal(0)), fresh('rows', z3.ArraySort(INT, z3.ArraySort(INT, INT)))))
         subexits = []
         if isinstance(e.elt, ast.ListComp):
             inner = self.ev_ListComp(e.elt, sub, subexits, nested=True)
@@ -853,7 +868,23 @@ class Exec:
         for t in st.targets: self.assign(t, v, ps, exits)
         return [(ps, 'next', None)]
 
+    def concat(self, ps, a, b):
+        """a + b for sequences: a fresh array defined by a quantified axiom"""
+        if a.esort != b.esort: raise Undecided('concatenation of sequences of different element sorts')
+        arr = fresh('cat', a.arr.sort())
+        ps.pc.append(S.forall_int(lambda j: z3.Select(arr, j) == z3.If(j < a.len, z3.Select(a.arr, j), z3.Select(b.arr, j - a.len)), 'cj',
+                                  lambda j: z3.Select(arr, j)))
+        return SSeq(a.len + b.len, arr)
+
     def st_AugAssign(self, st, ps, exits):
+        if isinstance(st.op, ast.Add) and isinstance(st.target, ast.Name) and isinstance(ps.env.get(st.target.id), Ref) \
+                and isinstance(ps.heap[ps.env[st.target.id].loc], SSeq):
+            # list += iterable extends the list object IN PLACE (every alias sees it); the right operand is not modified
+            ref = ps.env[st.target.id]
+            rv = self.deref(ps, self.ev(st.value, ps, exits))
+            if not isinstance(rv, SSeq): raise Undecided('list += non-list at line %d' % st.lineno)
+            self.write(ps, ref, self.concat(ps, ps.heap[ref.loc], rv))
+            return [(ps, 'next', None)]
         load = ast.copy_location(ast.BinOp(left=self._as_load(st.target), op=st.op, right=st.value), st)
         ast.fix_missing_locations(load)
         v = self.ev(load, ps, exits)
@@ -912,7 +943,8 @@ class Exec:
             try:
                 v = self.ev(expr, ps.fork(), [])
             except Undecided:
-                return None
+                # xs[i].append(..) with i bound inside the body: the container xs is what is mutated
+                return base_loc(expr.value) if isinstance(expr, ast.Subscript) else None
             if isinstance(v, Ref): return v.loc
             if isinstance(v, InnerRef): return v.loc
             return None
@@ -922,6 +954,9 @@ class Exec:
             elif isinstance(n, ast.AugAssign): targets = [n.target]
             elif isinstance(n, ast.For): targets = [n.target]
             for t in targets:
+                if isinstance(n, ast.AugAssign) and isinstance(n.op, ast.Add) and isinstance(t, ast.Name) and isinstance(ps.env.get(t.id), Ref) \
+                        and isinstance(ps.heap[ps.env[t.id].loc], SSeq):
+                    locs.add(ps.env[t.id].loc); continue          # in-place extension: the object changes, the binding does not
                 for tt in ast.walk(t):
                     if isinstance(tt, ast.Name) and isinstance(tt.ctx, ast.Store): names.add(tt.id)
                 if isinstance(t, ast.Subscript):
